@@ -41,7 +41,17 @@ def evaluate(mod, cases, tag="main", sample=None):
         q = dict(prep(c))
         q["id"] = i
         reqs.append(q)
+    if getattr(mod, "FRESH_PROCESS_COMPARE", False):
+        # the same requests again, in other processes; the handler's "hash" must agree
+        obs_b = C.run_impl(impl_prop, list(reversed(reqs)), batch=getattr(mod, "BATCH", 400) + 7, timeout=getattr(mod, "IMPL_TIMEOUT", 180))
+        hb = {o.get("id"): o.get("hash") for o in obs_b}
+    else:
+        hb = None
     obs = C.run_impl(impl_prop, reqs, batch=getattr(mod, "BATCH", 400), timeout=getattr(mod, "IMPL_TIMEOUT", 180))
+    if hb is not None:
+        for o in obs:
+            if o.get("hash") is not None and hb.get(o.get("id")) is not None and hb[o["id"]] != o["hash"]:
+                o["fresh_diff"] = True
     lines, index = [], []
     skipped = 0
     for i, (c, o) in enumerate(zip(cases, obs)):
